@@ -90,7 +90,7 @@ func childMain(args []string) int {
 // no null).
 func newTrace(c *Case, outcome, msg string) *Trace {
 	c.normalise()
-	return &Trace{Case: *c, Calls: []Call{}, Outcome: outcome, Msg: msg, NumTab: []NumEnt{}, Out: []int{}}
+	return &Trace{Case: *c, Calls: []Call{}, Outcome: outcome, Msg: msg, NumTab: []NumEnt{}, Out: []int{}, Raw: []int{}}
 }
 
 func (c *Case) normalise() {
